@@ -584,8 +584,14 @@ def _clone(deck):
 
 
 def _twelve(rng):
-    _, entries = tr_entries(rng, 12, star=False)
-    return entries
+    '''Origin + rotation matrix with no row along a coordinate axis (so that
+    its first one or two rows alone are a valid abbreviated matrix).'''
+    import deck as D
+    mat = D.matmul(D.rotation(0, rng.choice([30, 60, 120])),
+                   D.matmul(D.rotation(1, rng.choice([45, 30, 150])),
+                            D.rotation(2, rng.choice([60, 15, 210]))))
+    tr = D.make_tr([_c(rng) for _ in range(3)], mat)
+    return [float(v) for v in tr['print']]
 
 
 def _angles12(rng):
@@ -881,6 +887,47 @@ def f_facet_range_trcl(deck, rng):
     return out
 
 
+def f_facet_range_skipped(deck, rng):
+    '''Facet beyond the range in a cell that is not converted: importance 0.'''
+    out = []
+    surfs = {s['id']: s for s in deck['surfs']}
+    for k, cell0 in enumerate(deck['cells']):
+        if cell0.get('imp') != 0 or not cell0['lits'] or 'u=' in cell0['opts']:
+            continue
+        d = _clone(deck)
+        cell = d['cells'][k]
+        surf = surfs[abs(cell['lits'][0][0])]
+        cell['lits'][0][1] = min(9, n_facets(surf) + rng.choice([2, 3]))
+        out.append((d, f'cell {cell["id"]} (importance 0) literal '
+                       f'{lit_text(cell["lits"][0])}'))
+    return out
+
+
+def f_facet_range_filler(deck, rng):
+    '''Facet beyond the range in a cell of a universe that fills a cell of
+    the real world (directly, not through a lattice).'''
+    out = []
+    surfs = {s['id']: s for s in deck['surfs']}
+    used = set()
+    for cell in deck['cells']:
+        m = re.search(r'fill=(\d+)( |$)', cell['opts'])
+        if m and 'lat=' not in cell['opts'] and 'u=' not in cell['opts']:
+            used.add(m.group(1))
+    for k, cell0 in enumerate(deck['cells']):
+        m = re.search(r'u=(\d+)', cell0['opts'])
+        if not m or m.group(1) not in used or not cell0['lits'] \
+                or re.search(r'fill|lat=', cell0['opts']):
+            continue
+        d = _clone(deck)
+        cell = d['cells'][k]
+        j = rng.randrange(len(cell['lits']))
+        surf = surfs[abs(cell['lits'][j][0])]
+        cell['lits'][j][1] = min(9, n_facets(surf) + rng.choice([2, 3]))
+        out.append((d, f'cell {cell["id"]} (u={m.group(1)}) literal '
+                       f'{lit_text(cell["lits"][j])}'))
+    return out
+
+
 def f_facet_zero_trcl(deck, rng):
     '''Facet 0 in a cell that carries a TRCL (looked up in the MCNP surface
     dictionary, which refuses it).'''
@@ -1094,6 +1141,8 @@ FAULTS = {
     'facet_zero': (f_facet_zero, ['facets']),
     'facet_range_trcl': (f_facet_range_trcl, ['trcl', 'facets']),
     'facet_zero_trcl': (f_facet_zero_trcl, ['trcl']),
+    'facet_range_skipped': (f_facet_range_skipped, []),
+    'facet_range_filler': (f_facet_range_filler, ['fill']),
     'tr_card_arity': (f_tr_card_arity, ['tr']),
     'tr_card_short': (f_tr_card_short, ['tr']),
     'fill_array_len': (f_fill_array_len, ['lat']),
